@@ -865,7 +865,7 @@ impl<'a> FormatParser<'a> {
                     Field::DayName(NameStyle::Lower)
                 }
             };
-        } else if remain.len() >= 2 {
+        } else if CaseInsensitive::starts_with(remain, b"dy") {
             return match &remain[0..2] {
                 b"DY" => {
                     self.advance(2);
@@ -882,7 +882,9 @@ impl<'a> FormatParser<'a> {
             };
         }
 
-        Field::Invalid
+        // 'D' followed by 'A' that does not spell DAY: the day-of-week number
+        self.advance(1);
+        Field::DayOfWeek
     }
 
     #[inline]
